@@ -112,6 +112,14 @@ structure SState where
   transport-cc extension.  Which header-extension id a stream negotiated is no part of the protocol:
   every stream is read under its own. -/
   bound : List (Nat × Bool) := []
+  /-- no op other than a well-formed `cfg` seen yet: `nowriter` is accepted only then. -/
+  fresh : Bool := true
+  /-- the RTCP writer is bound — the interceptor's goroutine exists.  It is when the case starts, unless the case
+  opens with `nowriter`; `bindw` binds it. -/
+  wbound : Bool := true
+  /-- packets read while no writer was bound (stream, number, time of the read; oldest first): their Read returns
+  when the goroutine takes them over; the arrival time is that of the read. -/
+  waiting : List (Nat × Nat × Int) := []
   deriving Inhabited
 
 def sInit : SState :=
@@ -123,9 +131,19 @@ def sndPkt (st : SState) (ssrc seq : Nat) (ext : Bool) : Option SState :=
   | none => none
   | some (_, tcc) =>
     if tcc && ext then
+      if !st.wbound then some { st with waiting := st.waiting ++ [(ssrc, seq, st.snd.now)] } else
       let s := ({ st.snd with media := ssrc }).pkt seq
       some { st with snd := { s with media := st.snd.media } }
     else some st
+
+/-- BindRTCPWriter: the goroutine starts, records the packets that were waiting — each with the time of ITS read —
+and, if there was one, starts the ticker now. -/
+def sndBindW (st : SState) : SState :=
+  let rcd := st.waiting.foldl (fun r (p : Nat × Nat × Int) => r.record p.1 p.2.1 p.2.2) st.snd.rcd
+  let snd := { st.snd with rcd := rcd }
+  let snd := if st.waiting.isEmpty || snd.started then snd
+    else { snd with started := true, nextTick := snd.now + snd.interval }
+  { st with snd := snd, wbound := true, waiting := [] }
 
 /-- wire forms of a `mal` packet the RTP header parser accepts (recorded like any packet) … -/
 def malAccepted : List String := ["ver0", "ver1", "ver3", "padbit", "csrcok", "twobyte"]
@@ -139,8 +157,10 @@ def maskSS (l : String) : String :=
 
 def sndStep (st : SState) (ts : List String) : SState × List String :=
   let fs := fields ts
-  let st' := { st with first := false }
+  let st' := { st with first := false, fresh := false }
   match ts with
+  | ["nowriter"] => if st.fresh && st.wbound then ({ st' with wbound := false }, []) else (st', ["bad-op"])
+  | ["bindw"] => if st.wbound then (st', ["bad-op"]) else (sndBindW st', [])
   | ["cfg", _, _] =>
     if !st.first then (st', ["bad-op"]) else
     match (lookup fs "interval").bind (parseU · 3600000), (lookup fs "media").bind (parseU · 4294967295) with
